@@ -17,7 +17,7 @@ def build():
     if rc != 0:
         raise Harness("gen_shadow.py failed:\n" + out)
     shutil.copyfile("/repo/Cargo.lock", os.path.join(CRATE, "Cargo.lock"))
-    rc, out = sh(["cargo", "build", "--release", "--offline"], cwd=CRATE)
+    rc, out = sh(["cargo", "build", "--release", "--offline", "--target-dir", os.path.join(BUILD, "sessim")], cwd=CRATE)
     if rc != 0:
         raise Harness("the shadow crate does not build from /repo/impl/src:\n" + out[-6000:])
 
